@@ -14,8 +14,13 @@ import (
 )
 
 // TestC14Cache is built with -race by the driver.
-func TestC14Cache(t *testing.T) {
-	const sub = "C14.kademlia_concurrent"
+func TestC14Cache(t *testing.T) { kadConcurrent(t, "C14.kademlia_concurrent") }
+
+// The same workload decides a clause of C08: requests handled while the routing table changes must not kill the
+// process (the Go runtime ends it on a concurrent map iteration and write; that cannot be recovered).
+func TestC08DHTConcurrent(t *testing.T) { kadConcurrent(t, "C08.dht_requests_during_peer_churn") }
+
+func kadConcurrent(t *testing.T, sub string) {
 	ev.Rule(sub, "rapid, binary built with -race: 2-8 goroutines per method call Put / Get / Delete / Expire / ForEach / Closest / Count / IsFull / AcceptingPrefixLen / WouldAdd on one cache (capacity 4-64), and AddPeer / RemovePeer / ListNodeInfos / HandlePut / HandleGet / HandleFindNode / Count on one DHT node, for 300-2000 operations each. Oracle: the race detector reports nothing with a library frame; the cache never panics. non-trivial = >= 2 goroutines per method; distinct by (sizes, goroutine counts)")
 	rapid.Check(t, func(t *rapid.T) {
 		g := rapid.IntRange(2, 8).Draw(t, "goroutines")
